@@ -342,6 +342,8 @@ def reject_strategy():
             rows = rows + [draw(tuple_strategy(fields))]        # arrays mix valid and invalid elements
             n = 2
         case = dict(which=which, mode=mode, rows=rows, conv=conv, adt=draw(st.sampled_from(['i8', 'i8', 'narrow-signed', 'narrow-unsigned'])))
+        if mode == 'both-low':
+            case['lowpat'] = draw(st.sampled_from(['same', 'index-zero', 'zeros', 'line-zero', 'alternate']))
         if mode == 'range':
             name, lo, hi, sh = draw(st.sampled_from(fields))
             case['field'] = name
@@ -423,7 +425,21 @@ def reject_body(case):
                        skyversion=args['skyversion'], firstfield=args['firstfield'], allowed=(ValueError,))
         else:
             if mode == 'both-low':
-                kw = dict(line=args['line'], index=args['line'])
+                # both keywords given is refused whatever their values (round 11: also when one or both are 0 - element by element
+                # at most one of the two non-zero - which reads like "only one was really given")
+                pat = case.get('lowpat', 'same')
+                ln = np.array(args['line'], copy=True) if isinstance(args['line'], np.ndarray) else args['line']
+                ix = np.array(args['line'], copy=True) if isinstance(args['line'], np.ndarray) else args['line']
+                if pat == 'zeros':
+                    ln, ix = ln * 0, ix * 0
+                elif pat == 'index-zero':
+                    ix = ix * 0
+                elif pat == 'line-zero':
+                    ln = ln * 0
+                elif pat == 'alternate' and isinstance(ln, np.ndarray):
+                    ln[0::2] = 0
+                    ix[1::2] = 0
+                kw = dict(line=ln, index=ix)
             else:
                 kw = {case.get('low', 'line'): args['line']}
             got = call(sdss_specobjid, args['plate'], args['fiber'], args['mjd'], args['run2d'], allowed=(ValueError,), **kw)
